@@ -273,8 +273,27 @@ def _judge_layer_rule(ev, rlayer) -> None:
     acc.count("c05_judged")
     acc.hist("c05_shape_outcome", f"{rlayer.shape(cfg)}:{ev.outcome}")
     acc.hist("c05_situation", _layer_situation(cfg))
+    if any(not rlayer.pairwise_unrelated([t for k, t in d if k == "named"]) for d in cfg["layers"].values()):
+        acc.count("c05_judged_nested_layer_lists")
     if got != exp:
         HUB.violation("C05", f"verdict:{rlayer.shape(cfg)}:{'false-pass' if got else 'false-fail'}", f"layer rule {'passed' if got else 'failed'} but the documented layer semantics say {'holds' if exp else 'violated'}", w)
+        return
+    if not got and "C03" in HUB.judges:
+        from .refmodel import msgparse
+
+        try:
+            gp, gn = msgparse.parse_layer_message(ev.message)
+        except msgparse.Unparseable:
+            acc.count("layer_reports_unparseable")  # the tagged line format is not documented: cannot observe
+            return
+        _ok, pos, neg, layer_of = rlayer.report(cfg["layers"], cfg, mods, imps)
+        acc.count("c03_layer_reports_judged")
+        got_pairs = {(a, b) for a, _al, b, _bl in gp}
+        if got_pairs != pos or gn != neg:
+            kind = "missing-line" if pos - got_pairs else "extra-line" if got_pairs - pos else "negative-line"
+            HUB.violation("C03", f"layer-report:{kind}:{rlayer.shape(cfg)}", "report of a failing layer rule differs from the violating set of the documented layer semantics", dict(w, missing=sorted(pos - got_pairs), extra=sorted(got_pairs - pos), neg_got=sorted(map(repr, gn)), neg_expected=sorted(map(repr, neg))))
+        elif any(al != layer_of(a) or bl != layer_of(b) for a, al, b, bl in gp):
+            acc.count("layer_report_tag_mismatches")  # counted only: no property states the tags
 
 
 def _layer_situation(cfg) -> str:
